@@ -140,6 +140,9 @@ def _walk_steps_every_subpage(ctx, run, f):
                     ok = True
                 elif op == "=" and r["k"] == "mem" and r["member"] in ("subno_min", "subno_max"):
                     ok = True
+                elif op == "=" and r["k"] == "cond" and len(r.get("c", [])) == 3:
+                    arms = [f.exprs[ex.skip(f, c_)] for c_ in r["c"][1:]]
+                    ok = all(a_["k"] == "mem" and a_["member"] in ("subno_min", "subno_max") for a_ in arms)
                 elif op == "=" and r["k"] == "bin" and r["op"] == "+":
                     names = {f.exprs[ex.skip(f, c)].get("name") for c in r["c"]}
                     ok = names == {sub, dirp}
@@ -151,7 +154,7 @@ def _walk_steps_every_subpage(ctx, run, f):
                               "walk direction: cached subpages in between (every subcode is possible on hex-numbered pages) are never "
                               "visited, matches on them are not found" % ex.pretty(f, i)[:60], ex.loc(f, i),
                               witness={"function": f.name, "store": ex.pretty(f, i)})
-    run.floor("stores to the subpage number inside the walk loop", n, 3)
+    run.floor("stores to the subpage number inside the walk loop", n, 2)
 
 
 def _walk_starts_inside_start_page(ctx, run, f):
@@ -294,6 +297,30 @@ def _enter_page_at_far_end(ctx, run, f):
             r = f.exprs[ex.skip(f, rhs)]
             while r["k"] == "cast":
                 r = f.exprs[ex.skip(f, r["c"][0])]
+            if r["k"] == "cond" and len(r.get("c", [])) == 3:
+                # `subno = backwards ? ps->subno_max : ps->subno_min`: both directions in one statement
+                arms = []
+                for c_ in r["c"][1:]:
+                    ae = f.exprs[ex.skip(f, c_)]
+                    while ae["k"] == "cast":
+                        ae = f.exprs[ex.skip(f, ae["c"][0])]
+                    arms.append(ae["member"] if ae["k"] == "mem" and ae["member"] in ("subno_min", "subno_max") else None)
+                pol = None
+                for a in atoms.atoms_of(f, r["c"][0], True, bid, None):
+                    if a.R is not None and a.R.const == 0 and a.L.locals and not a.L.fields and (dirp is None or dirp in a.L.locals):
+                        pol = "back" if a.rel == "<" else ("fwd" if a.rel in (">", ">=") else pol)
+                if None not in arms and pol is not None:
+                    n += 2
+                    want_true = "subno_max" if pol == "back" else "subno_min"
+                    key = "RF-TAB:%s:enter-page-both-directions" % f.name
+                    if arms[0] == want_true and arms[1] != want_true:
+                        run.holds("RF-TAB", key, "`%s` enters a page at subno_max walking backward and at subno_min walking forward"
+                                  % ex.pretty(f, i)[:60], ex.loc(f, i))
+                    else:
+                        run.violation("RF-TAB", key, "`%s` enters the page at the near end in the walk direction: only one subpage of "
+                                      "every page is visited, matches on the others are never found" % ex.pretty(f, i)[:60],
+                                      ex.loc(f, i), witness={"function": f.name})
+                continue
             if not (r["k"] == "mem" and r["member"] in ("subno_min", "subno_max")):
                 continue
             back = fwd = False
